@@ -25,6 +25,8 @@ import time
 VERIF = os.path.dirname(os.path.dirname(os.path.abspath(__file__)))
 REPO = os.environ.get("VERIF_REPO", "/repo")
 GUARD = "ASL_VERIF"
+# runs against a scratch copy of the repository (seed evaluation) keep their evidence / replay files apart
+OUT = os.environ.get("VERIF_OUT", VERIF)
 
 REPO_ST_OBJECTS = ["stringlists.c", "strutil.c", "nonzstring.c", "dynstr.c",
                    "stdhandl.c", "strcomp.c", "as_endian.c", "bpemu.c"]
@@ -132,7 +134,7 @@ def G(name, src, entry, enforce=None, replace=None, link=None, defs=None, loops=
       unwind=None, unwindset=None, flags=None, tier="quick", bounded=None, timeout=300,
       mem=12, functions=None, finding=None, replay="native", solver=None, noreach=False,
       stubs=None, object_bits=None, note=None, selftest=None, only_finding=None,
-      enforce_none=False, genbody=None, cflags=None, dfcc=True, replace_calls=None):
+      enforce_none=False, genbody=None, cflags=None, dfcc=True, replace_calls=None, split=None):
     enforce = enforce or []
     if isinstance(enforce, str):
         enforce = [enforce]
@@ -143,7 +145,7 @@ def G(name, src, entry, enforce=None, replace=None, link=None, defs=None, loops=
                  finding=finding, replay=replay, solver=solver, noreach=noreach,
                  stubs=stubs or [], object_bits=object_bits, note=note,
                  selftest=selftest, only_finding=only_finding, enforce_none=enforce_none,
-                 genbody=genbody, cflags=cflags or [], dfcc=dfcc, replace_calls=replace_calls or [])
+                 genbody=genbody, cflags=cflags or [], dfcc=dfcc, replace_calls=replace_calls or [], split=split)
 
 
 def load_checks(pid):
@@ -330,12 +332,19 @@ def verify_group(g, gen, scratch, extra_defs=(), tag=""):
         return res
     cmd = cbmc_cmd(g, binary)
     res["cbmc_cmd"] = " ".join(cmd)
-    r = run(cmd, timeout=g.timeout, mem_gb=g.mem)
+    if g.get("split"):
+        # the obligations of one group decided by several cbmc processes, each on a share of the property list
+        # (measured on p2bin/pbind ProcessFile: every obligation alone needs seconds, all of them in one incremental
+        # SAT session more than ten minutes).  Unwinding assertions are part of every share.
+        r, results, status, msgs = run_split(g, binary, cmd)
+        res["cbmc_cmd"] += "   [split into %d shares by --property]" % g.split
+    else:
+        r = run(cmd, timeout=g.timeout, mem_gb=g.mem)
+        results, status, msgs = (None, None, []) if r["timeout"] else parse_cbmc(r["out"])
     res["wall"] = time.time() - t0
     if r["timeout"]:
         res.update(status="undecided", detail="cbmc timeout after %ss" % g.timeout)
         return res
-    results, status, msgs = parse_cbmc(r["out"])
     res["messages_tail"] = msgs[-8:]
     m = [x for x in msgs if "Runtime decision procedure" in x or "Runtime Solver" in x]
     res["solver_s"] = sum(float(re.search(r"([0-9.]+)s", x).group(1)) for x in m if re.search(r"([0-9.]+)s", x))
@@ -367,6 +376,47 @@ def verify_group(g, gen, scratch, extra_defs=(), tag=""):
     res["_binary"] = binary
     res["_wd"] = wd
     return res
+
+
+def run_split(g, binary, cmd):
+    lst = run([c for c in cmd if c != "--trace"] + ["--show-properties"], timeout=600, mem_gb=g.mem)
+    names = []
+    try:
+        for item in json.loads(lst["out"]):
+            for p in item.get("properties", []) if isinstance(item, dict) else []:
+                names.append(p["name"])
+    except Exception:
+        pass
+    if not names:
+        return dict(rc=lst["rc"], out=lst["out"], err="no property list: " + lst["err"][-500:], timeout=False), None, None, []
+    n = max(1, int(g.split))
+    shares = [names[i::n] for i in range(n)]
+    def one(share):
+        c = cmd[:-1]
+        for nm in share:
+            c += ["--property", nm]
+        return run(c + [cmd[-1]], timeout=g.timeout, mem_gb=g.mem)
+    with cf.ThreadPoolExecutor(max_workers=n) as ex:
+        outs = list(ex.map(one, shares))
+    merged, msgs, seen = [], [], {}
+    rr = dict(rc=max(o["rc"] for o in outs), out="", err="".join(o["err"][-500:] for o in outs), timeout=any(o["timeout"] for o in outs))
+    if rr["timeout"]:
+        return rr, None, None, []
+    for o in outs:
+        results, status, m = parse_cbmc(o["out"])
+        if results is None:
+            return dict(rc=o["rc"], out=o["out"], err=o["err"], timeout=False), None, None, m
+        msgs += m
+        for p in results:
+            k = p.get("property")
+            if k in seen:
+                # unwinding assertions appear in every share: keep the worst outcome
+                if p.get("status") != "SUCCESS":
+                    merged[seen[k]] = p
+                continue
+            seen[k] = len(merged)
+            merged.append(p)
+    return rr, merged, "merged", msgs
 
 
 def get_trace(g, binary, prop):
@@ -655,7 +705,7 @@ def run_check(pid, tier, jobs=None, only=None, keep=False):
                 return 3
             failed = sorted(failed, key=prio)
             o = failed[0]
-            rdir = os.path.join(VERIF, "replay", pid)
+            rdir = os.path.join(OUT, "replay", pid)
             os.makedirs(rdir, exist_ok=True)
             rpath = os.path.join(rdir, re.sub(r"[^A-Za-z0-9_.-]", "_", g.name + "__" + o["name"]) + ".json")
             trace = get_trace(g, r["_binary"], o["name"])
@@ -725,7 +775,7 @@ def scan_assumes(mod):
 
 
 def write_evidence(pid, tier, seed, mod, ev_groups, wall, nviol, known=(), broken=None):
-    os.makedirs(os.path.join(VERIF, "evidence"), exist_ok=True)
+    os.makedirs(os.path.join(OUT, "evidence"), exist_ok=True)
     proved = [s for s in ev_groups if not s.get("bounded") and s.get("status") in ("ok", "ok(finding no longer reproduces)")]
     bounded = [s for s in ev_groups if s.get("bounded")]
     obligations = sum(s.get("obligations", 0) for s in proved)
@@ -760,7 +810,7 @@ def write_evidence(pid, tier, seed, mod, ev_groups, wall, nviol, known=(), broke
         cov["broken"] = broken
     ev = dict(property_id=pid, tier=tier, seed=seed, level=level, coverage=cov,
               assumptions=list(getattr(mod, "ASSUMPTIONS", [])), wall_s=round(wall, 1), violations=nviol)
-    with open(os.path.join(VERIF, "evidence", pid + ".json"), "w") as f:
+    with open(os.path.join(OUT, "evidence", pid + ".json"), "w") as f:
         json.dump(ev, f, indent=1)
 
 
